@@ -68,6 +68,12 @@ func (g *Gen) genStore() Stmt {
 		return nil
 	}
 	t := p.t
+	if p.root != nil && p.root.Space == "workgroup" && (t.Kind == KArray || t.Kind == KStruct) {
+		if !g.on("store.workgroup-array") {
+			return nil
+		}
+		g.feat("store.workgroup-array")
+	}
 	viaPtrParam := p.root != nil && p.root.Kind == VParam
 	// compound assignment / inc-dec on numeric scalars & vectors
 	if (t.IsNumeric() || (t.Kind == KVec && t.Elem.IsNumeric())) && r.Chance(1, 3) && (!viaPtrParam || g.on("ptr-param-compound")) {
